@@ -439,8 +439,8 @@ def run(tier, seed, replay=None):
         'translator T-ops (harness/src/fmt_run.rs prec-table + lib/prectable.py): calls E::precedence() on a representative of every '
         'expression constructor and BinaryOperator::precedence()/kind_str() on every operator; the Coq printer model takes its numbers '
         'from the generated coq/generated/PrecTable.v',
-        'hand models: C08/Model.v (parser levels, printer decisions: the non-commutative set {- / %} and the three-way Binary rule are '
-        'copied by hand), C08/Layout.v (prettier.rs), C08/Lit.v (string/int literal lexing and printing) - each differentially executed '
+        'hand models: C08/Model.v (parser levels, printer decisions: the non-commutative set {- / %}, the three-way Binary rule, the '
+        'may_end_with_field_name guard on the left operand of `<` and the equal-level parentheses of a unary operand are copied by hand), C08/Layout.v (prettier.rs), C08/Lit.v (string/int literal lexing and printing) - each differentially executed '
         'against the real printer, lexer and parser on every run',
         'model fragment: atoms, field access, one-argument call, block with one expression, unary, binary, if/else, one-arm match, '
         'one-parameter lambda; declarations, patterns, types, statements are covered by the monitor only',
